@@ -73,7 +73,7 @@ func (c *fctx) needsFuel(n ast.Node) bool {
 				found = true
 			}
 		case *ast.CallExpr:
-			if c.fueledCallee(x) != nil {
+			if c.fueledCallee(x) != nil || c.recClosureOf(x) != nil {
 				found = true
 			}
 		}
@@ -410,11 +410,13 @@ func (c *fctx) fueledCallTerm(cu *unit, call *ast.CallExpr, f *types.Func) (term
 }
 
 func (c *fctx) isParam(v *types.Var) bool {
-	if c.sig.Recv() == v {
+	// (of the function being translated, also from inside its function literals)
+	sig := c.u.obj.Type().(*types.Signature)
+	if sig.Recv() == v {
 		return true
 	}
-	for i := 0; i < c.sig.Params().Len(); i++ {
-		if c.sig.Params().At(i) == v {
+	for i := 0; i < sig.Params().Len(); i++ {
+		if sig.Params().At(i) == v {
 			return true
 		}
 	}
@@ -684,47 +686,7 @@ func (c *fctx) funcLit(x *ast.FuncLit) string {
 	if c.needsFuel(x.Body) {
 		c.fail(x.Pos(), "function literal whose body contains a loop with fuel")
 	}
-	// captured variables
-	inner := map[types.Object]bool{}
-	ast.Inspect(x, func(n ast.Node) bool {
-		if id, ok := n.(*ast.Ident); ok {
-			if o := c.info.Defs[id]; o != nil {
-				inner[o] = true
-			}
-		}
-		return true
-	})
-	captured := map[types.Object]bool{}
-	ast.Inspect(x.Body, func(n ast.Node) bool {
-		if id, ok := n.(*ast.Ident); ok {
-			if o, isVar := c.info.Uses[id].(*types.Var); isVar && !inner[o] && c.known(o) {
-				captured[o] = true
-			}
-		}
-		return true
-	})
-	ast.Inspect(c.u.decl.Body, func(n ast.Node) bool {
-		var lhs []ast.Expr
-		switch s := n.(type) {
-		case *ast.AssignStmt:
-			lhs = s.Lhs
-		case *ast.IncDecStmt:
-			lhs = []ast.Expr{s.X}
-		case *ast.ExprStmt:
-			if call, ok := s.X.(*ast.CallExpr); ok {
-				if sel, ok := call.Fun.(*ast.SelectorExpr); ok {
-					lhs = append(lhs, sel.X)
-				}
-				lhs = append(lhs, call.Args...)
-			}
-		}
-		for _, l := range lhs {
-			if o := c.rootVar(l); o != nil && captured[o] && n.Pos() > x.Pos() && !(n.Pos() >= x.Pos() && n.End() <= x.End()) {
-				c.fail(n.Pos(), "assignment to %s after it was captured by a function literal (closures capture by reference)", o.Name())
-			}
-		}
-		return true
-	})
+	c.captureCheck(x, nil)
 	// a nested translation context
 	oSig, oK, oW, oF, oTy, oRaw, oRes := c.sig, c.retK, c.retWrap, c.fuelOut, c.retTy, c.rawTy, c.resTys
 	saved := c.copyEnv()
